@@ -39,8 +39,23 @@ unsafe impl GlobalAlloc for Counting {
 	}
 }
 
+/// debugging aid: with `set_trap(n)` the first single request of at least n bytes prints where it came from
+static TRAP: AtomicUsize = AtomicUsize::new(usize::MAX);
+pub fn set_trap(bytes: usize) {
+	TRAP.store(bytes, Ordering::Relaxed);
+}
+
+#[inline(never)]
+fn trapped(size: usize) {
+	TRAP.store(usize::MAX, Ordering::Relaxed);
+	eprintln!("ALLOC-TRAP: single request of {size} bytes\n{}", std::backtrace::Backtrace::force_capture());
+}
+
 #[inline]
 fn note(size: usize) {
+	if size >= TRAP.load(Ordering::Relaxed) {
+		trapped(size);
+	}
 	let live = LIVE.fetch_add(size, Ordering::Relaxed) + size;
 	PEAK.fetch_max(live, Ordering::Relaxed);
 	LARGEST.fetch_max(size, Ordering::Relaxed);
